@@ -291,6 +291,20 @@ def run(ctx, chk):
         chk.ob(same(a, n, "std", "none"), "C18/leaf/std-vs-none/%s" % name, "decoder %s has different tables in std and no-alloc: %r vs %r" % (name, (a or [])[:2], (n or [])[:2]),
                sample={"leaf": name, "rows": len(a or [])})
     chk.cov["leaf_tables_compared"] = len(T["std"])
+    # ---- (4b) accessors of decoded values that no decoder calls (the rate of turn is visible only
+    #      through them): the same summary in every configuration
+    from .common import rot_accessor_summary
+    for meth in ("rate", "direction"):
+        summ = {}
+        for c in cfgs:
+            try:
+                r = rot_accessor_summary(ctx.facts(c), meth)
+            except Exception as e:
+                r = "unanalysable: %r" % (e,)
+            summ[c] = sorted((vals.iv, repr(rv)) for vals, rv in r) if isinstance(r, list) else r
+        for c in cfgs[1:]:
+            chk.ob(summ[c] == summ["std"], "C18/accessor/%s/std-vs-%s" % (meth, c), "RateOfTurn::%s differs between std and %s: %r vs %r" % (meth, c, str(summ["std"])[:200], str(summ[c])[:200]),
+                   sample={"accessor": "RateOfTurn::" + meth, "paths": len(summ["std"]) if isinstance(summ["std"], list) else 0})
     # ---- (5) the local copies of many_m_n / count against nom's semantics (scripted element parser)
     nscripts = check_local_combinators(ctx, chk, 5 if ctx.tier == "thorough" else 4)
     chk.cov["local_combinator_scripts"] = nscripts
